@@ -24,6 +24,7 @@ Proof.
   destruct a, b; cbn; try (split; intro E; [discriminate E | discriminate E]); try tauto.
   - rewrite N.eqb_eq. split; intro E. + subst; reflexivity. + injection E; auto.
   - rewrite N.eqb_eq. split; intro E. + subst; reflexivity. + injection E; auto.
+  - rewrite N.eqb_eq. split; intro E. + subst; reflexivity. + injection E; auto.
 Qed.
 
 Lemma fname_eqb_eq a b : fname_eqb a b = true <-> a = b.
@@ -95,6 +96,7 @@ Variable cyid : cyaml -> N.
 Variable list_of : cyfrom -> list N.
 Variable info_of : cyfrom -> schema_info.
 Variable dinfo_of : N -> dict_info.
+Variable deps_fn : srcs -> option N -> list rname.
 
 Hypothesis H_crc : forall i l i' l', l <> [] -> l' <> [] -> crc i l = crc i' l' -> i = i' /\ l = l'.
 Hypothesis H_cyid : forall c c', cyid c = cyid c' -> c = c'.
@@ -108,15 +110,24 @@ Definition nonzero : Prop :=
   forall s f v, In s Hist -> lookup s f = Some v -> fv_mtime v <> 0.
 Hypothesis H_coh : coherent.
 Hypothesis H_nz : nonzero.
+(** what the config compiler loads is determined by what it has loaded: if every
+    resource read when compiling from [s0] is the same in [s], compiling from [s]
+    reads the same resources *)
+Definition deps_closed : Prop :=
+  forall s s0 t, In s Hist -> In s0 Hist ->
+    (forall r, In r (deps_fn s0 t) -> lookup s (FRes r) = lookup s0 (FRes r)) -> deps_fn s t = deps_fn s0 t.
+Hypothesis H_deps : deps_closed.
 
 Notation crc_files := (crc_files crc).
+Notation build_config := (build_config deps_fn).
+Notation config_update := (config_update deps_fn).
 Notation compile_packs := (compile_packs crc dinfo_of).
 Notation compile_core := (compile_core crc cyid dinfo_of).
 Notation compile := (compile crc cyid dinfo_of).
-Notation schema_update := (schema_update crc cyid info_of dinfo_of).
-Notation build_schema := (build_schema crc cyid info_of dinfo_of).
-Notation visit := (visit crc cyid info_of dinfo_of).
-Notation deploy := (deploy crc cyid list_of info_of dinfo_of).
+Notation schema_update := (schema_update crc cyid info_of dinfo_of deps_fn).
+Notation build_schema := (build_schema crc cyid info_of dinfo_of deps_fn).
+Notation visit := (visit crc cyid info_of dinfo_of deps_fn).
+Notation deploy := (deploy crc cyid list_of info_of dinfo_of deps_fn).
 
 (** ** the invariant: artefacts are self-describing *)
 
@@ -208,7 +219,7 @@ Lemma keep_sound_cy s s0 t :
 Proof.
   intros Hs Hs0. unfold needs_update, build_config. cbn [cy_ts].
   intro Hex.
-  assert (forall r, In r (deps_of t) -> lookup s0 (FRes r) = lookup s (FRes r)) as Hall.
+  assert (forall r, In r (deps_fn s0 t) -> lookup s0 (FRes r) = lookup s (FRes r)) as Hall.
   { intros r Hr.
     assert (entry_stale s (r, ts_of (lookup s0 (FRes r))) = false) as Hst.
     { destruct (entry_stale s (r, ts_of (lookup s0 (FRes r)))) eqn:E; auto.
@@ -221,6 +232,7 @@ Proof.
     - apply negb_false_iff, N.eqb_eq in Hst. exfalso. eapply (H_nz s); eauto.
     - apply negb_false_iff, N.eqb_eq in Hst. exfalso. eapply (H_nz s0); eauto.
     - rewrite ?Ev0. reflexivity. }
+  rewrite (H_deps s s0 t Hs Hs0) by (intros r Hr; symmetry; apply Hall; exact Hr).
   f_equal.
   - apply map_ext_in. intros r Hr. rewrite (Hall r Hr). reflexivity.
   - apply map_ext_in. intros r Hr. rewrite (Hall r Hr). reflexivity.
@@ -885,11 +897,11 @@ Definition cyid_inj (cyid : cyaml -> N) : Prop := forall c c', cyid c = cyid c' 
     no two schemas with different compiled configs share a prism name - see
     [noop_shared_prism_witness], where it fails in the model. *)
 Definition noop_deploy_rewrites_nothing_full : Prop :=
-  forall crc cyid list_of info_of dinfo_of, crc_inj crc -> cyid_inj cyid ->
-  forall Hist, coherent Hist -> nonzero Hist ->
-  forall s a, In s Hist -> wf_srcs list_of info_of s -> Inv crc cyid Hist a ->
-  let a1 := fst (fst (deploy crc cyid list_of info_of dinfo_of s a)) in
-  forallb (fun e => negb (rebuilt_entry e)) (snd (fst (deploy crc cyid list_of info_of dinfo_of s a1))) = true.
+  forall crc cyid list_of info_of dinfo_of deps_fn, crc_inj crc -> cyid_inj cyid ->
+  forall Hist, coherent Hist -> nonzero Hist -> deps_closed deps_fn Hist ->
+  forall s a, In s Hist -> wf_srcs list_of info_of deps_fn s -> Inv crc cyid deps_fn Hist a ->
+  let a1 := fst (fst (deploy crc cyid list_of info_of dinfo_of deps_fn s a)) in
+  forallb (fun e => negb (rebuilt_entry e)) (snd (fst (deploy crc cyid list_of info_of dinfo_of deps_fn s a1))) = true.
 
 (** ** concrete runs of the model: non-vacuity and the two observations *)
 
@@ -905,11 +917,12 @@ Definition demo_srcs : srcs :=
   [(FRes RDefault, mkver 1 100); (FRes (RSchema 1), mkver 2 101); (FRes (RSchema 2), mkver 3 102);
    (FDict 10, mkver 4 103)].
 
-Definition demo_deploy := deploy demo_crc demo_cyid demo_list_of demo_info_of demo_dinfo_of.
+Definition demo_deps (_ : srcs) (t : option N) : list rname := deps_of t.
+Definition demo_deploy := deploy demo_crc demo_cyid demo_list_of demo_info_of demo_dinfo_of demo_deps.
 
 (** the hypotheses of the theorems are satisfiable: these sources are well formed,
     the empty store is invariant, the deployment succeeds and builds six artefacts *)
-Example wf_demo : wf_srcs demo_list_of demo_info_of demo_srcs.
+Example wf_demo : wf_srcs demo_list_of demo_info_of demo_deps demo_srcs.
 Proof.
   split; [discriminate|]. split.
   - intros x [<-|[<-|[]]]; discriminate.
@@ -938,3 +951,22 @@ Example delete_dict_keeps_table_witness :
   get_tab a1 (KTab 10) <> None /\
   get_tab (fst (fst (demo_deploy s2 []))) (KTab 10) = None.
 Proof. vm_compute. repeat split; discriminate. Qed.
+
+(** [deps_closed] is satisfiable, also by a dependency relation that follows an
+    __include: here a root file with an odd content id includes resource [ROther 1] *)
+Example deps_closed_demo Hist : deps_closed demo_deps Hist.
+Proof. intros s s0 t _ _ _. reflexivity. Qed.
+
+Definition include_deps (s : srcs) (t : option N) : list rname :=
+  deps_of t ++ match lookup s (FRes (res_of t)) with
+               | Some v => if N.odd (fv_cid v) then [ROther 1] else []
+               | None => []
+               end.
+
+Example deps_closed_include_demo Hist : deps_closed include_deps Hist.
+Proof.
+  intros s s0 t _ _ H. unfold include_deps.
+  assert (In (res_of t) (include_deps s0 t)) as Hin.
+  { unfold include_deps. apply in_or_app. left. destruct t; cbn; auto. }
+  rewrite (H _ Hin). reflexivity.
+Qed.
